@@ -15,6 +15,25 @@ def field_names(projs):
     return [pp.get('n') for pp in projs if isinstance(pp, dict) and 'f' in pp]
 
 
+def str_chain(fn, op, depth=12):
+    out = []
+    cur = [op]
+    seen = set()
+    while cur and depth > 0:
+        depth -= 1
+        nxt = []
+        for o_ in cur:
+            for x in sources(fn, o_, extra_transparent=(r'::to_string$', r'::to_owned$', r'::into$', r'String::from$', r'::as_str$', r'::as_ref$', r'::unwrap_or$', r'::unwrap_or_default$')):
+                if x[0] == 'call' and (x[1], x[2]) not in seen:
+                    seen.add((x[1], x[2]))
+                    cs_ = [c_ for c_ in fn.sites() if c_.bb == x[2]]
+                    if cs_ and cs_[0].args:
+                        out.append(cs_[0])
+                        nxt.append(cs_[0].args[0])
+        cur = nxt
+    return out
+
+
 def run(ctx):
     P = ctx.prog
     ctx.not_decided = 'that SseDecoder::push / push_bytes give the same events for every partition of the byte stream (carried decoder state across all split positions needs enumeration or an inductive argument, not a shape rule); that output text is the concatenation of the deltas.'
@@ -335,23 +354,6 @@ def run(ctx):
     # ---------------------------------------------------------------- C15.11
     ctx.rule('C15.11', 'a data line is stored as it came: the text pushed onto the pending data of an event derives from the buffered line through the line-end CR strip (trim_end_matches with the constant \'\\r\'), the field-prefix strip and the leading-space strip only — no trailing / two-sided trim, no case change, no replace. Trailing whitespace is payload (the raw of a non-JSON event, the inner line ends of a multi-line payload), and a whitespace-only line is not the blank line that ends an event.')
 
-    def str_chain(fn, op, depth=12):
-        out = []
-        cur = [op]
-        seen = set()
-        while cur and depth > 0:
-            depth -= 1
-            nxt = []
-            for o_ in cur:
-                for x in sources(fn, o_, extra_transparent=(r'::to_string$', r'::to_owned$', r'::into$', r'String::from$', r'::as_str$', r'::as_ref$', r'::unwrap_or$', r'::unwrap_or_default$')):
-                    if x[0] == 'call' and (x[1], x[2]) not in seen:
-                        seen.add((x[1], x[2]))
-                        cs_ = [c_ for c_ in fn.sites() if c_.bb == x[2]]
-                        if cs_ and cs_[0].args:
-                            out.append(cs_[0])
-                            nxt.append(cs_[0].args[0])
-            cur = nxt
-        return out
     n11 = 0
     for pu in dec.sites():
         if not re.search(r'Vec::<T, A>::push$|String::push_str$', pu.callee or '') or len(pu.args) < 2:
@@ -415,6 +417,19 @@ def run(ctx):
     # the coroutine body reads its arguments through the captured environment (local 1)
     verbatim = bool(src) and all(x[0] in ('param', 'upvar') or (x[0] == 'call' and re.search(TRANSP, x[1])) for x in src)
     every = ps.must_pass([dp.bb], 0, ps.returns())
+    # ... and the bytes handed to the pipe are the chunk the network delivered, whole: no per-chunk strip / slice /
+    # split before push_bytes (a BOM stripped from the first chunk only is decoded differently when the network
+    # splits inside it)
+    sreq = P.body('ripd::session::stream_openresponses_request')
+    pbs = sreq.calls(r'OpenResponsesSsePipe::<\'a>::push_bytes$|OpenResponsesSsePipe::push_bytes$|OpenResponsesSsePipe<.*>::push_bytes$')
+    ctx.floor('C15.6', 'push_bytes calls in stream_openresponses_request', len(pbs), 2)
+    for pb in pbs:
+        ch_ = str_chain(sreq, pb.args[-1])
+        cut = [c_ for c_ in ch_ if re.search(r'::(strip_prefix|strip_suffix|trim\w*|split\w*|slice|split_off|split_to|advance|truncate|skip|drain|get|get_unchecked|index|to_ascii_\w+|replace\w*)$', c_.callee or '') and 'Try' not in (c_.callee or '')]
+        ctx.touch(sreq)
+        ctx.ob('C15.6', sreq, 'whole-chunk-to-the-pipe', not cut,
+               'the pipe is fed the chunk as the network delivered it' if not cut else
+               'the bytes handed to push_bytes went through %s (line %s): a per-chunk cut sees only this chunk, so the same bytes split elsewhere decode differently' % (cut[0].name, cut[0].line), line=pb.line)
     ctx.ob('C15.6', ps, 'every-chunk-reaches-decoder', verbatim and every,
            'SseDecoder::push %s' % ('receives every chunk, unmodified' if verbatim and every else
                                     ('can be SKIPPED (a return is reachable without it): a blank / padding chunk that carries a line end is lost, events merge or are never dispatched' if not every else 'receives a rewritten chunk')), line=dp.line)
